@@ -18,11 +18,21 @@ type spaceOpts struct {
 	flagBits     int // flag bits enumerated exhaustively in K1 (others stay 0)
 	k1Full       int // depth of K1 x full alphabet
 	k1Reduced    int // depth of K1 x reduced alphabet
+	k1Extra      []k1Phase
+	emphasisMask int // flag mask for the emphasis workloads (0 = flagBits)
 	k2Depth      int // depth of K2 x tiny alphabet
 	k3Depth      int // depth of K3 (K1 flags16 with zstd/lz4) x reduced alphabet, 0 = off
 	chunkedOnly  bool
 	skipMagicOff bool // never set SkipMagic (for readers that cannot skip it)
 	fixed        []*model.Content
+}
+
+// k1Phase is an additional K1-style phase with its own flag mask, alphabet and depth.
+type k1Phase struct {
+	name  string
+	mask  int
+	alpha model.Alphabet
+	depth int
 }
 
 func note(c *model.Content, cfg gow.Config) func() any {
@@ -44,9 +54,9 @@ func writerSpace(r *chk.Run, so spaceOpts, oracle writerOracle) {
 		x.State = explore.Hash(res.Bytes)
 		return oracle(x, c, cfg, res)
 	}
-	k1 := func(a model.Alphabet, depth int) explore.Body {
+	k1m := func(a model.Alphabet, depth int, mask int) explore.Body {
 		return func(x *explore.Ctx) *explore.Verdict {
-			cfg := gow.ChooseK1(x, so.flagBits)
+			cfg := gow.ChooseK1(x, mask)
 			if so.chunkedOnly && !cfg.Chunked {
 				cfg.Chunked, cfg.ChunkSize = true, 200
 			}
@@ -54,6 +64,7 @@ func writerSpace(r *chk.Run, so spaceOpts, oracle writerOracle) {
 			return run(c, cfg, x)
 		}
 	}
+	k1 := func(a model.Alphabet, depth int) explore.Body { return k1m(a, depth, so.flagBits) }
 	r.Rule(fmt.Sprintf("writer space: every legal call sequence (header; schema/channel/message/attachment/metadata in any legal order; close) "+
 		"over the alphabets of DESIGN §3, times sub-products of the writer configuration, each enumerated exhaustively through explore.Choose; "+
 		"distinct = distinct output files (hash of sink bytes); K1 flag mask %010b", so.flagBits))
@@ -62,6 +73,9 @@ func writerSpace(r *chk.Run, so spaceOpts, oracle writerOracle) {
 	}
 	if so.k1Reduced > 0 {
 		r.Phase(fmt.Sprintf("K1-reduced-depth<=%d", so.k1Reduced), k1(reduced, so.k1Reduced), chk.PhaseOpts{Share: 0.5})
+	}
+	for _, ph := range so.k1Extra {
+		r.Phase(fmt.Sprintf("K1-%s-mask%010b-depth<=%d", ph.name, ph.mask, ph.depth), k1m(ph.alpha, ph.depth, ph.mask), chk.PhaseOpts{Share: 0.5})
 	}
 	levels := []int{0, 1}
 	sizes := []int64{1, 64}
@@ -96,7 +110,11 @@ func writerSpace(r *chk.Run, so spaceOpts, oracle writerOracle) {
 		if x.Bool("cfg") {
 			cfg = gow.ChooseK2(x, levels, sizes)
 		} else {
-			cfg = gow.ChooseK1(x, so.flagBits)
+			m := so.emphasisMask
+			if m == 0 {
+				m = so.flagBits
+			}
+			cfg = gow.ChooseK1(x, m)
 			if so.chunkedOnly && !cfg.Chunked {
 				cfg.Chunked, cfg.ChunkSize = true, 200
 			}
